@@ -250,6 +250,7 @@ func c13underLock(r *Run, rep *core.Report, f *ssa.Function, name string, in ssa
 
 type rzState struct {
 	Owner   int8 // 0 = CAS not yet decided, 1 = won, 2 = lost
+	DMu     bool // release of the resize mutex deferred to the return
 	Mu      bool
 	Cleared bool
 	Bcast   bool
@@ -278,6 +279,16 @@ func c13L3(r *Run, rep *core.Report) {
 			})
 			m := &core.Machine[rzState]{P: r.P, Fn: f, Spec: sp, Inline: helperInline(r)}
 			m.Step = func(ctx *core.Ctx[rzState], s rzState, in ssa.Instruction) []rzState {
+				if _, isDefer := in.(*ssa.Defer); isDefer {
+					if dev := r.M.LockEventOfCall(in.(ssa.CallInstruction)); dev != nil && dev.Class == "resize" && !dev.Acquire {
+						s.DMu = true
+					}
+					return []rzState{s}
+				}
+				if _, isRun := in.(*ssa.RunDefers); isRun && s.DMu {
+					s.Mu, s.DMu = false, false
+					return []rzState{s}
+				}
 				if ev := r.M.LockEventOf(in); ev != nil && ev.Class == "resize" {
 					s.Mu = ev.Acquire
 					return []rzState{s}
